@@ -286,6 +286,76 @@ fn main() {
             t.sample(run.seed, s.iter().fold(1u64, |a, x| a * 19 + *x as u64), || json!({"pattern": ps, "list": list}));
         });
     }
+    // wide pair pool: every version of <= 3 tokens over a 14-token alphabet, and every <= 2-token
+    // version followed by a revision suffix with something after its digits; all unordered pairs,
+    // both argument orders.  The model verdicts are tabulated once per name; a pair that agrees
+    // with the table is done, any other pair goes through check_pair for attribution.
+    {
+        const TOK: [&str; 14] = ["0", "1", "2", "10", ".", "_", "nb", "a", "b", "rc", "pre", "pl", "alpha", "x"];
+        const REV: [&str; 9] = ["nb1", "nb2", "nb1.1", "nb1a", "nb01", "nb1nb2", "nb2.0", "nb", "nb1_1"];
+        let mut names: Vec<String> = vec!["p-".to_string()];
+        let mut pre = vec![];
+        let depth = run.pick(3, 3);
+        seqs::dfs(TOK.len(), depth, &mut pre, &|_| false, &mut |q: &[usize]| {
+            if q.is_empty() {
+                return;
+            }
+            let v: String = q.iter().map(|i| TOK[*i]).collect();
+            if q.len() <= 2 {
+                for r in REV {
+                    names.push(format!("p-{}{}", v, r));
+                }
+            }
+            names.push(format!("p-{}", v));
+        });
+        names.sort();
+        names.dedup();
+        if !run.thorough() {
+            // quick tier: every third name of the <= 3-token part, all revision-suffix names
+            let mut k = 0usize;
+            names.retain(|n| {
+                k += 1;
+                n.contains("nb") || k % 3 == 0
+            });
+        }
+        let wide: [&str; 2] = ["p-*", "p>=1"];
+        run.bound(format!("wide pair pool: {} names (versions of <= {} tokens over {} tokens, revision suffixes with trailing text), all unordered pairs x both argument orders x {} patterns", names.len(), depth, TOK.len(), wide.len()));
+        for ps in wide {
+            let p = Pattern::new(ps).unwrap_or_else(|e| run.fault(&format!("pattern {} does not compile: {}", ps, e)));
+            let toks: Vec<_> = names.iter().map(|n| dewey::tokenise(version_of(n), LetterWeight::Rank)).collect();
+            let m: Vec<bool> = names.iter().map(|n| mpat::matches(ps, n, LetterWeight::Rank) == Some(true)).collect();
+            let idx: Vec<usize> = (0..names.len()).collect();
+            par_items(&run, "C06 wide pairs", &idx, |_, i, t| {
+                let a = names[*i].as_str();
+                for j in *i..names.len() {
+                    let b = names[j].as_str();
+                    t.states += 1;
+                    t.transitions += 2;
+                    let want = match (m[*i], m[j]) {
+                        (false, false) => None,
+                        (true, false) => Some(a),
+                        (false, true) => Some(b),
+                        (true, true) => Some(match dewey::cmp(&toks[*i], &toks[j]) {
+                            Ordering::Greater => a,
+                            Ordering::Less => b,
+                            Ordering::Equal => if a.as_bytes() <= b.as_bytes() { a } else { b },
+                        }),
+                    };
+                    let got = guard(|| (p.best_match(a, b), p.best_match(b, a)));
+                    if got == Ok((want, want)) {
+                        t.evals += 2;
+                        t.validated += 2;
+                        if m[*i] && m[j] && i != &j {
+                            t.nontrivial += 1;
+                        }
+                        t.outcome("wide-pair/agrees");
+                    } else {
+                        check_pair(&run, t, ps, &p, a, b);
+                    }
+                }
+            });
+        }
+    }
     // scale: long candidate lists (rotations of the pool, 8..64 names) reduced left-to-right,
     // right-to-left and as a balanced tree
     run.bound("scale: for each pattern, every rotation and its reversal of pool-derived lists of 8, 16, 27 and 64 candidates, reduced left-to-right, right-to-left and as a balanced tree");
